@@ -322,4 +322,6 @@ pub struct M<'x, 'd> {
 
 #[path = "opmutate_rules.rs"]
 mod rules;
+#[path = "opmutate_ctx.rs"]
+mod ctx;
 pub use rules::{mutate, mutate_neutral, mutate_with, MUTATORS};
